@@ -14,7 +14,7 @@ run_one() { # patch, label, props...
   mkdir -p "$S/.verif"; cp "$D/known-findings.txt" "$S/.verif/"
   RES=""
   for P in "$@"; do
-    OUT="$(VERIF_DIR="$S/.verif" "$D/bin/gtfscheck" -property "$P" -tier quick -repo "$S" 2>&1)"
+    OUT="$(VERIF_DIR="$S/.verif" "${BIN:-$D/bin/gtfscheck}" -property "$P" -tier quick -repo "$S" 2>&1)"
     if echo "$OUT" | grep -q '^VIOLATION'; then
       RULES="$(echo "$OUT" | grep -E '^    rule ' | sed 's/^    rule \([A-Za-z0-9]*\) in .*/\1/' | sort -u | tr '\n' ',' | sed 's/,$//')"
       RES="$RES $P:CAUGHT[$RULES]"
@@ -35,13 +35,11 @@ if [ "$MODE" = "prefix" ] || [ "$MODE" = "all" ]; then
   while read h rest; do
     f="$D/selftest/prefix/$h.patch"; [ -f "$f" ] || continue
     props="$(grep "$h" "$D/known-findings.txt" | grep -o 'property=C[0-9]*' | cut -d= -f2 | sort -u | tr '\n' ' ')"
+    case "$rest" in props=*) props="$(echo "$rest" | sed 's/^props=\([A-Z0-9,]*\).*/\1/' | tr ',' ' ')";; esac
     [ -n "$props" ] || props="C05"
     run_one "$f" "prefix $h ($(echo $rest | cut -c1-50))" $props
   done < "$D/selftest/prefix/INDEX.txt"
 fi
 if [ "$MODE" = "benign" ] || [ "$MODE" = "all" ]; then
-  for f in "$D"/selftest/benign/*.patch; do
-    [ -f "$f" ] || continue
-    run_one "$f" "benign $(basename "$f" .patch)" C01 C02 C03 C04 C05 C06 C07 C08 C09 C10 C11 C12 C13 C14 C15 C16 C17 C18 C19 C20
-  done
+  "$D/selftest/run_benign.sh"
 fi
